@@ -15,7 +15,7 @@ import (
 	"github.com/miekg/dns"
 )
 
-//verif:harness H18_wire property=C18 native=yes quick=k=1,vmax=2,empty=0,mand=0;k=2,vmax=1,empty=0,mand=0;k=2,vmax=1,empty=1,mand=0;k=3,vmax=1,empty=0,mand=1 thorough=k=2,vmax=2,empty=0,mand=0;k=3,vmax=1,empty=0,mand=0;k=3,vmax=1,empty=1,mand=0
+//verif:harness H18_wire property=C18 native=yes quick=k=1,vmax=2,empty=0,mand=0,long=0;k=2,vmax=1,empty=0,mand=0,long=0;k=2,vmax=1,empty=1,mand=0,long=0;k=3,vmax=1,empty=0,mand=1,long=0;k=1,vmax=1,empty=0,mand=0,long=1 thorough=k=2,vmax=2,empty=0,mand=0,long=0;k=3,vmax=1,empty=0,mand=0,long=0;k=3,vmax=1,empty=1,mand=0,long=0
 
 var verifVmax = 2
 
@@ -234,6 +234,21 @@ func H18_wire() {
 		for i := range decls {
 			decls[i] = &verifDecl{key: order[i]}
 		}
+	}
+	if nd.Param("long") == 1 {
+		// a value of 256 bytes or more (length prefix needs its high byte): an ECH configuration of
+		// 258 bytes, the last one solver-chosen (k must be 1)
+		d := &verifDecl{key: 5, ech: make([]byte, 258)}
+		for i := range d.ech {
+			d.ech[i] = byte(i)
+		}
+		d.ech[257] = nd.Byte()
+		decls[0] = d
+		text = append(append(text, "echconfig="...), verifBase64(d.ech)...)
+		var l ParamList
+		err := l.FromText(text)
+		verifJudge18(decls, l, err)
+		return
 	}
 	for i := range decls {
 		if decls[i] == nil {
